@@ -220,6 +220,9 @@ func c14Gen(c *Ctx) *c14Scenario {
 			op = c14Op{Kind: "createTemplate", ID: g.Pick(c14TmplIDs), Script: 1 + g.Intn(6)}
 		case 9:
 			op = c14Op{Kind: "patchTemplate", ID: g.Pick(c14TmplIDs), Script: 1 + g.Intn(6)}
+			if g.Chance(1, 5) {
+				op.NewID = g.Pick(c14TmplIDs) // the template is renamed (to the other id, or "to itself")
+			}
 			if g.Chance(1, 5) || tmplHeavy && g.Chance(1, 3) {
 				op = c14Op{Kind: "deleteTemplate", ID: g.Pick(c14TmplIDs)}
 			}
@@ -227,6 +230,9 @@ func c14Gen(c *Ctx) *c14Scenario {
 			op = c14Op{Kind: "restart"}
 			if tmplHeavy && g.Bool() {
 				op = c14Op{Kind: "patchTemplate", ID: g.Pick(c14TmplIDs), Script: 1 + g.Intn(6)}
+			if g.Chance(1, 5) {
+				op.NewID = g.Pick(c14TmplIDs) // the template is renamed (to the other id, or "to itself")
+			}
 			}
 		default:
 			op = c14Op{Kind: "write"}
@@ -452,6 +458,14 @@ func (m *c14Model) apply(op c14Op) bool {
 		if ns.Invalid {
 			return false
 		}
+		newID := op.ID
+		if op.NewID != "" && op.NewID != op.ID {
+			// the template is given another id: taken ids are refused; its tasks follow it
+			if _, taken := m.Templates[op.NewID]; taken {
+				return false
+			}
+			newID = op.NewID
+		}
 		// all of its tasks or none: the update fails as a whole when an enabled task cannot be reloaded with the new script
 		for _, id := range simrt.Keys(m.Tasks) {
 			t := m.Tasks[id]
@@ -468,11 +482,15 @@ func (m *c14Model) apply(op c14Op) bool {
 				return false
 			}
 		}
-		m.Templates[op.ID] = ns.Text
+		if newID != op.ID {
+			delete(m.Templates, op.ID)
+			delete(m.TmplAlt, op.ID)
+		}
+		m.Templates[newID] = ns.Text
 		for _, id := range simrt.Keys(m.Tasks) {
 			t := m.Tasks[id]
 			if t.Template == op.ID && !t.Orphan {
-				t.Script = ns.Text
+				t.Script, t.Template = ns.Text, newID
 				switch {
 				case ns.Implicit != "":
 					t.DBRP = ns.Implicit
@@ -714,6 +732,9 @@ func c14Request(d *harness.Daemon, op c14Op) (int, string) {
 	case "deleteTemplate":
 		return d.Do("DELETE", "/kapacitor/v1/templates/"+op.ID, "")
 	case "patchTemplate":
+		if op.NewID != "" {
+			return d.Do("PATCH", "/kapacitor/v1/templates/"+op.ID, fmt.Sprintf(`{"id":%q,"script":%q}`, op.NewID, c14TScripts[op.Script].Text))
+		}
 		return d.Do("PATCH", "/kapacitor/v1/templates/"+op.ID, fmt.Sprintf(`{"script":%q}`, c14TScripts[op.Script].Text))
 	}
 	return 0, ""
@@ -1103,7 +1124,7 @@ func runC14(c *Ctx) Verdict {
 	// (1) an injected failure at the k-th underlying storage write of one request
 	var cand [][2]int
 	for i, n := range base.opWrites {
-		if sc.Ops[i].Kind != "patchTemplate" || !base.opOK[i] {
+		if sc.Ops[i].Kind != "patchTemplate" || !base.opOK[i] || (sc.Ops[i].NewID != "" && sc.Ops[i].NewID != sc.Ops[i].ID) {
 			// (and a single fault: an update that fails anyway and then meets a storage error while rolling back is a double fault)
 			// the property names one operation that must be all-or-none when it fails part-way; storage errors
 			// inside other requests are outside its quantifier (DESIGN.md, C14 observations)
@@ -1210,7 +1231,7 @@ func init() {
 		ID:  "C14",
 		Run: runC14,
 		Rule: "case = a history of 3-12/25 API requests (create task from a script or a template, patch script/status/id/template/vars/dbrps, delete, create and patch templates; valid and deliberately rejected ones, template updates that fail on one of their tasks, definitions whose start fails, a definition whose running pipeline fails on certain data (written by a 'boom' operation), some requests issued back to back) over 4 task ids and 2 template ids (one id a prefix of another in both sets), template deletion, interleaved with clean restarts and data writes, issued against the real HTTP handler; after every acknowledged request and every restart the catalogue read through GET /tasks, /tasks/<id> and /templates is compared with a reference catalogue, and executing with enabled; the history is then re-executed with an injected failure at up to 8 underlying storage writes inside accepted template updates, and with a crash at up to 8 storage transaction boundaries followed by a restart on a byte copy of the Bolt file and the rest of the history; " +
-			"(round 3) one opening in ten deletes a template and creates it again while tasks still name it, followed by a (often rejected) request on one of them and an update of the new template; one case in 120 instead defines 195-330 tasks (a sixteenth enabled, some at the end of the id order), reads the listing page by page (page 7-100), restarts cleanly and requires every enabled task to execute again; " +
+			"a fifth of the template updates also give the template another id (taken ids are refused; its tasks follow it); (round 3) one opening in ten deletes a template and creates it again while tasks still name it, followed by a (often rejected) request on one of them and an update of the new template; one case in 120 instead defines 195-330 tasks (a sixteenth enabled, some at the end of the id order), reads the listing page by page (page 7-100), restarts cleanly and requires every enabled task to execute again; " +
 			"non-trivial = every case; distinct = distinct (scenario, interleaving signatures) tuples",
 		Real:        []string{"services/task_store Service (Open, HTTP handlers, DAOs, updateAllAssociatedTasks, startTask watcher)", "services/storage IndexedStore + Bolt adapter + real bbolt file", "services/httpd Handler routing", "TaskMaster (StartTask/StopTask/DeleteTask), pipeline construction, tick parser/evaluator/formatter"},
 		Stub:        []string{"harness StorageService wrapper: crash = abandon the world at a transaction boundary + byte copy; failing Put/Delete/Commit", "server.Server wiring replaced by the harness (storage, alert, task master, task store opened in server order)"},
